@@ -497,8 +497,8 @@ fn learn_commit_polls(board: &Board, tf: &ThreeFold, budget: u64, positional: bo
 // ------------------------------------------------------------------------------------------ C12
 
 pub fn c12(c: &mut Collector, seed: u64, shard: u64, nshards: u64, thorough: bool, scale: f64) {
-    let n_random = ((if thorough { 6000.0 } else { 500.0 }) * scale).max(2.0) as u64;
-    let budget: u64 = if thorough { 3_000_000 } else { 400_000 };
+    let n_random = ((if thorough { 3000.0 } else { 500.0 }) * scale).max(2.0) as u64;
+    let budget: u64 = if thorough { 1_200_000 } else { 400_000 };
     let mut positions = engine_positions(seed, shard, nshards, n_random, true);
     // classic mates in one (both colours via mirror)
     if shard == 0 {
